@@ -773,7 +773,9 @@ def code_window_ref():
     from contracts import c19
     from contracts.common import rewrap
 
-    return rewrap(PROP, c19.init_cases(), "code-is-the-window")
+    from contracts import c01
+
+    return rewrap(PROP, c19.init_cases() + c19.decode_cases(), "code-is-the-window") + rewrap(PROP, c01.memory_cases(), "calldata-reads-zero-past-its-end", lambda c: c.unit.endswith("#CALLDATACOPY"))
 
 
 def build_cases(tier="quick"):
